@@ -12,7 +12,8 @@ PROP = {'areas': [{'area': 'engine',
             'only_prop': 'C18',
             'quick': 12000,
             'thorough': 2000000,
-            'tie_fields': ['done', 'tmo', 'ops', 'nst', 'ppub', 'pnon']}],
+            'tie_fields': ['done', 'tmo', 'ops', 'nst', 'ppub', 'pnon']},
+           {'area': 'c14r', 'corpus': [], 'only_sig': '^C18:real:', 'quick': 32, 'thorough': 320, 'tie_sig': '^c14r-harness'}],
  'coq_target': 'Properties/C18.vo',
  'modelled': 'protocol.rs ProtocolState: handle_user_event, handle_network_event (opened / closed / incoming data / write completion), service '
              '(pending-connack / connected / pending-disconnect), get_next_service_timepoint, reset and every helper they call (operation table, three intake '
@@ -31,12 +32,42 @@ PROP = {'areas': [{'area': 'engine',
          'response (outcome, state, completions, packet events, bytes, next service time, full bookkeeping snapshot) is compared (kind=tie, with the set of '
          "diverging fields); the extracted monitors of Engine/Monitors.v judge the IMPLEMENTATION's observation (kind=property, with the first observation at "
          'which the monitor turns false and the script that reproduces it). distinct = distinct command scripts; non-trivial = reached at least one '
-         'interesting predicate (x_interesting_predicates_reached)'}
+         'interesting predicate (x_interesting_predicates_reached) || REAL DRIVERS, REAL TIME: area c14r, family acktmo: a QoS 1 publish with ack timeout T '
+         '(200..400 ms) against a broker that never acknowledges resolves with AckTimeout, not before T, within T + 1.5 s.'}
 
 META = {'design_ref': 'DESIGN.md section 7 / C18',
  'level_note': 'Trusted: Coq kernel; the tie (facade engine.rs, harness, OCaml driver incl. the generator); the reference codec used by the simulated broker '
                '(SpecDecodeC2S / SpecEncodeS2C); abstract component hypotheses of the engine theorems (no-panic of codec / validators / resolvers) are '
                'discharged in the codec / validation / alias developments or stated as premises.',
- 'level_text': "One-step Coq theorems for every state: C18_timeout_exact / C18_timeout_sound (a service call fails exactly the operations whose record is due, with AckTimeout, and nothing else), C18_deadline_armed / C18_deadline_not_armed (the record is armed with now + T when the packet is completely written, only for operations with a timeout), C18_retry_count / C18_retry_limit / C18_retry_sound / C18_no_limit (interruption counting and failure exactly above the limit inside a close). Run-level Coq theorems (EngineProofs/TimersRun*.v; every state reachable from init by ANY event history; hypotheses only the component invariants, ok_cfg, Forall ok_event; C18_instance_* = the concrete engine with the component hypotheses discharged): C18_run_armed (every operation awaiting an acknowledgement that is a user operation with timeout T, completely written at w with w + T in the clock range, has the record (i, w + T)) and C18_run_timeout_fires (hence the first successful service call at or after w + T removes it) and C18_run_timeout_acktimeout (and reports (i, AckTimeout) for it whenever the operation is not seated / queued for a follow-up packet, e.g. every QoS 1 publish or subscribe awaiting its ack; for a QoS 2 publish whose PUBREL is queued in the same call only the removal is proved); C18_run_records_sound / C18_epoch_spec / C18_run_record_written / C18_run_no_record / C18_run_tmo_empty (every record is w + T for the time w of a service call made after the last close / reset and the ack timeout T of a user operation whose latest complete write was made by a service call after the last close / reset: queued time and writes on earlier connections arm nothing; operations without timeout, internal or never written have no record; no record in Disconnected / PendingConnack); C18_run_intr_count (interruption_count = the number of closes of the history that caught the operation in the pending tables, ghost counter by recursion over the history), C18_run_limit (never above the limit), C18_run_maxintr_sound / C18_run_maxintr_complete (MaxInterruptedRetriesExceeded only from a close that catches a user operation whose count is exactly the limit, i.e. its (limit+1)-th interruption, and that close removes the operation). C18_run_acktimeout_sound / C18_instance_acktimeout_sound (never early, never without a timeout: an AckTimeout completion of a service call at time now comes from a due record, now >= w + T for the time w of a service call made after the last close / reset and the ack timeout T of the user operation; the generic form assumes that the abstract outbound validator never answers with the AckTimeout kind, the instance form proves it for the concrete validator). Not proved at run level (monitor-only, partial): that w in C18_run_acktimeout_sound is the time of a complete write of THIS operation (the records-sound theorems give it for the record's latest write only), and that the operation removed by C18_run_maxintr_complete is reported with exactly MaxInterruptedRetriesExceeded when another failure of it happens in the same close (mon_c18_timeout / mon_c18_retry judge both on the implementation trace); the state form 'a record exists only for an operation currently in a sent place' is not proved; 'written on this connection' is identified by the time of the writing service call, exact when service times are distinct. Monitors on the implementation trace: mon_c18_timeout (an AckTimeout completion only for an operation with a timeout, never before the deadline of one of its completely written packets), mon_c18_late (after every successful service call at time t no operation remains incomplete whose packet was completely written at w with w + T <= t: not later than the first service at or after the deadline), mon_c18_retry.",
+ 'level_text': 'One-step Coq theorems for every state: C18_timeout_exact / C18_timeout_sound (a service call fails exactly the operations whose record is due, '
+               'with AckTimeout, and nothing else), C18_deadline_armed / C18_deadline_not_armed (the record is armed with now + T when the packet is '
+               'completely written, only for operations with a timeout), C18_retry_count / C18_retry_limit / C18_retry_sound / C18_no_limit (interruption '
+               'counting and failure exactly above the limit inside a close). Run-level Coq theorems (EngineProofs/TimersRun*.v; every state reachable from '
+               'init by ANY event history; hypotheses only the component invariants, ok_cfg, Forall ok_event; C18_instance_* = the concrete engine with the '
+               'component hypotheses discharged): C18_run_armed (every operation awaiting an acknowledgement that is a user operation with timeout T, '
+               'completely written at w with w + T in the clock range, has the record (i, w + T)) and C18_run_timeout_fires (hence the first successful '
+               'service call at or after w + T removes it) and C18_run_timeout_acktimeout (and reports (i, AckTimeout) for it whenever the operation is not '
+               'seated / queued for a follow-up packet, e.g. every QoS 1 publish or subscribe awaiting its ack; for a QoS 2 publish whose PUBREL is queued in '
+               'the same call only the removal is proved); C18_run_records_sound / C18_epoch_spec / C18_run_record_written / C18_run_no_record / '
+               'C18_run_tmo_empty (every record is w + T for the time w of a service call made after the last close / reset and the ack timeout T of a user '
+               'operation whose latest complete write was made by a service call after the last close / reset: queued time and writes on earlier connections '
+               'arm nothing; operations without timeout, internal or never written have no record; no record in Disconnected / PendingConnack); '
+               'C18_run_intr_count (interruption_count = the number of closes of the history that caught the operation in the pending tables, ghost counter by '
+               'recursion over the history), C18_run_limit (never above the limit), C18_run_maxintr_sound / C18_run_maxintr_complete '
+               '(MaxInterruptedRetriesExceeded only from a close that catches a user operation whose count is exactly the limit, i.e. its (limit+1)-th '
+               'interruption, and that close removes the operation). C18_run_acktimeout_sound / C18_instance_acktimeout_sound (never early, never without a '
+               'timeout: an AckTimeout completion of a service call at time now comes from a due record, now >= w + T for the time w of a service call made '
+               'after the last close / reset and the ack timeout T of the user operation; the generic form assumes that the abstract outbound validator never '
+               'answers with the AckTimeout kind, the instance form proves it for the concrete validator). Not proved at run level (monitor-only, partial): '
+               "that w in C18_run_acktimeout_sound is the time of a complete write of THIS operation (the records-sound theorems give it for the record's "
+               'latest write only), and that the operation removed by C18_run_maxintr_complete is reported with exactly MaxInterruptedRetriesExceeded when '
+               "another failure of it happens in the same close (mon_c18_timeout / mon_c18_retry judge both on the implementation trace); the state form 'a "
+               "record exists only for an operation currently in a sent place' is not proved; 'written on this connection' is identified by the time of the "
+               'writing service call, exact when service times are distinct. Monitors on the implementation trace: mon_c18_timeout (an AckTimeout completion '
+               'only for an operation with a timeout, never before the deadline of one of its completely written packets), mon_c18_late (after every '
+               'successful service call at time t no operation remains incomplete whose packet was completely written at w with w + T <= t: not later than the '
+               "first service at or after the deadline), mon_c18_retry. That the DRIVERS turn the engine's reported service times into calls is sampled in "
+               'real time on the real tokio / threaded clients (area c14r: keep-alive 1 s with an answering / a silent broker, QoS 1 publish with an ack '
+               'timeout against a broker that never acknowledges; generous margins, inconclusive runs discarded).',
  'technique': 'machine-checked proof in Coq over the engine model + lock-step correspondence of the extracted model with the implementation + extracted '
               'monitors on the implementation trace'}
